@@ -33,6 +33,10 @@ pub struct Hist {
     pub ops: Vec<Op>,
 }
 
+pub fn hist_strategy(max_ops: usize) -> impl Strategy<Value = Hist> {
+    hist(max_ops)
+}
+
 fn hist(max_ops: usize) -> impl Strategy<Value = Hist> {
     (
         1u8..=4,
@@ -240,6 +244,10 @@ pub struct Scen {
     /// T only: operations of the thief B after A was filled: None = pop, Some(p) = push
     #[serde(default)]
     pub b_ops: Vec<Option<i64>>,
+}
+
+pub fn scen_strategy() -> impl Strategy<Value = Scen> {
+    scen()
 }
 
 fn scen() -> impl Strategy<Value = Scen> {
